@@ -107,6 +107,11 @@ fn hist_cfg_for(seed: u64, m: &HashMap<String, String>) -> hist::HistCfg {
         jitter_us: arg(m, "jitter-us", 0),
         cache_cap: arg(m, "cache-cap", 0),
     };
+    if cfg.profile == "trivial" {
+        // (the prologue wants a memtable that does not rotate by itself and at least 4 keys)
+        cfg.nkeys = cfg.nkeys.max(6);
+        cfg.opts.memtable = cfg.opts.memtable.max(2500);
+    }
     if m.contains_key("small-caches") {
         // (drawn last: the other settings of a seed stay what they are without the flag)
         cfg.cache_cap = *[2usize, 2, 3, 4, 8].get(rng.gen_range(0..5)).unwrap();
